@@ -611,10 +611,37 @@ package moss
 
 // The background persister (which hands snapshots to LowerLevelUpdate) and the
 // merger only run on collections that are not ReadOnly.
+// The persister: hands the base section - read under the lock - to
+// LowerLevelUpdate; on an error nothing is changed (the same section is read
+// again); on success, in one critical section, the base slot is emptied, the
+// section moves to the clean slot only when CachePersisted, and the result
+// becomes the lower level; the cached snapshot is dropped.
 //@ func (m *collection) runPersister()
-//@   trusted body covered by the C13/C16 contracts
+//@   props C13 C18 C16
+//@   attr obligations lock-inv region guarded lock inv-entry inv-preserve
 //@   requires @notReadOnly !readOnlyMode()
+//@   requires m != nil && m.options != nil && !held(m.m) && m.stats != nil
 //@   modifies *
+//@   unlock 2: @readOnly m.stackDirtyBase == atAcquire(m.stackDirtyBase) && m.stackDirtyMid == atAcquire(m.stackDirtyMid) && m.stackDirtyTop == atAcquire(m.stackDirtyTop) &&
+//@       m.stackClean == atAcquire(m.stackClean) && m.lowerLevelSnapshot == atAcquire(m.lowerLevelSnapshot) && m.latestSnapshot == atAcquire(m.latestSnapshot)
+//@   unlock 3: @baseEmptied m.stackDirtyBase == nil && m.latestSnapshot == nil
+//@   unlock 3: @clean m.stackClean == ite(m.options.CachePersisted, atAcquire(m.stackDirtyBase), nil)
+//@   unlock 3: @lower m.lowerLevelSnapshot != atAcquire(m.lowerLevelSnapshot) || m.lowerLevelSnapshot == nil
+//@   unlock 3: @restKept m.stackDirtyTop == atAcquire(m.stackDirtyTop) && m.stackDirtyMid == atAcquire(m.stackDirtyMid)
+//@   loop 1: modifies m.waitDirtyIncomingCh, m.waitDirtyOutgoingCh, m.latestSnapshot, m.highestIncarNum, m.stackDirtyTop, m.stackDirtyMid, m.stackDirtyBase, m.stackClean, m.lowerLevelSnapshot, m.childCollections,
+//@       heaps(CollectionStats), heaps(segmentStack), heaps(SnapshotWrapper), heaps(Footer), ioFailed, unsynced, knownSize, footerEarly
+//@   loop 1: invariant !held(m.m)
+//@   loop 2: modifies m.waitDirtyIncomingCh, m.waitDirtyOutgoingCh, m.latestSnapshot, m.highestIncarNum, m.stackDirtyTop, m.stackDirtyMid, m.stackDirtyBase, m.stackClean, m.lowerLevelSnapshot, m.childCollections, heap(CollectionStats.TotPersisterWaitBeg), heap(CollectionStats.TotPersisterWaitEnd)
+//@   loop 2: invariant held(m.m)
+//@   loop 2: invariant lockInv(m.m)
+
+//@ func CollectionOptions.LowerLevelUpdate
+//@   ensures true
+//@ func (m *collection) NotifyMerger(kind string, synchronous bool) error
+//@   trusted pings the merger goroutine over a channel (ping protocol: C16); no guarded state is touched
+//@ func NewSnapshotWrapper(ss Snapshot, closer io.Closer) *SnapshotWrapper
+//@   ensures (ss == nil ==> result == nil) && (ss != nil ==> result != nil && fresh(result) && result.ss == ss && result.refCount == 1)
+
 //@ func (m *collection) runMerger()
 //@   trusted body covered by the C01/C16 contracts
 //@   requires @notReadOnly !readOnlyMode()
@@ -1075,9 +1102,11 @@ package moss
 // Invariant of the collection's mutex: whenever the lock is free,
 //   bound          at most MaxPreMergerBatches batches wait in the top section (C16)
 //   closedNoCache  a closed collection has no cached snapshot to hand out (C16)
+//   channels       the wake-up channels are not the stop channel (closing one is not a Close)
 //   sections       every section is a well-formed stack of sorted segments
 //@ lock-invariant collection.m: @bound self.stackDirtyTop == nil || len(self.stackDirtyTop.a) <= maxPre(self)
 //@ lock-invariant collection.m: @closedNoCache closed(self.stopCh) ==> self.latestSnapshot == nil
+//@ lock-invariant collection.m: @channels self.stopCh != nil && self.waitDirtyOutgoingCh != self.stopCh && self.waitDirtyIncomingCh != self.stopCh
 //@ lock-invariant collection.m: @sections secOK(self.stackDirtyTop) && secOK(self.stackDirtyMid) && secOK(self.stackDirtyBase) && secOK(self.stackClean)
 
 //@ func (m *collection) isClosed() bool
@@ -1159,3 +1188,19 @@ package moss
 //@ func Snapshot.Close
 //@   modifies heap(segmentStack.refs), heap(segmentStack.lowerLevelSnapshot), heap(SnapshotWrapper.refCount), heap(SnapshotWrapper.ss), heap(SnapshotWrapper.closer), heap(CollectionStats.TotSnapshotInternalClose), heap(Footer.refs)
 //@   ensures true
+
+// ---- handing work to the persister (C13, C16) ----------------------------------------------------------------
+
+// The merger hands the middle section down only into an empty base slot, in
+// one critical section, and wakes the persister when it does; a base section
+// that is still being persisted is never replaced.
+//@ func (m *collection) mergerNotifyPersister()
+//@   props C13 C16
+//@   attr obligations lock-inv region guarded lock
+//@   requires m != nil && m.options != nil && !held(m.m) && m.stats != nil
+//@   modifies *
+//@   unlock 1: @handover atAcquire(m.stackDirtyBase) == nil && atAcquire(m.stackDirtyMid) != nil ==>
+//@       m.stackDirtyBase == atAcquire(m.stackDirtyMid) && m.stackDirtyMid == nil && signalled(m.stackDirtyBaseCond)
+//@   unlock 1: @noOverwrite atAcquire(m.stackDirtyBase) != nil ==> m.stackDirtyBase == atAcquire(m.stackDirtyBase) && m.stackDirtyMid == atAcquire(m.stackDirtyMid)
+//@   unlock 1: @nothingToHand atAcquire(m.stackDirtyBase) == nil && atAcquire(m.stackDirtyMid) == nil ==> m.stackDirtyBase == nil && m.stackDirtyMid == nil
+//@   unlock 1: @restKept m.stackDirtyTop == atAcquire(m.stackDirtyTop) && m.stackClean == atAcquire(m.stackClean) && m.lowerLevelSnapshot == atAcquire(m.lowerLevelSnapshot) && m.latestSnapshot == atAcquire(m.latestSnapshot)
